@@ -60,6 +60,14 @@ def gen_cases(ck):
                       "scale": float(10.0 ** ck.rng.uniform(-1, 2)), "shift_in_extents": [float(ck.rng.uniform(6, 12)), 0.0],
                       "nframes": int(ck.rng.integers(2, 5)), "field": "random", "bound_factor": 0.95, "renumber": True, "cm": False,
                       "guess_frac": 0.0, "times": "equal"})
+    for i in range(6 if ck.tier == "quick" else 40):
+        # one interface far shorter than the first search shell (0.2 % of the extent against 0.5 %), all frames numbered alike except
+        # that the two ends of that interface exchange their ids from frame to frame: proximity decides, never the id
+        cases.append({"type": "series", "seed": int(ck.rng.integers(1 << 30)), "tissue": ["random", "jitter", "hex"][i % 3],
+                      "sites": int(ck.rng.integers(12, 26)), "subset": None, "min_ridge": 0.01, "short_ridge": 0.002, "mobius": False,
+                      "kmin": 0, "kmax": 3, "angle": float(ck.rng.uniform(0, 6.28)), "scale": float(10.0 ** ck.rng.uniform(-1, 2)),
+                      "shift": [0.0, 0.0], "nframes": int(ck.rng.integers(2, 5)), "field": ["random", "drift"][i % 2], "bound_factor": 0.45,
+                      "renumber": "swap_short", "cm": bool(i % 2), "guess_frac": 0.0, "times": "equal"})
     return cases
 
 
